@@ -177,6 +177,50 @@ func checkC14(e *core.Env) {
 			}
 		}
 	}
+	// an error whose status claims OK (custom error types can do that) is still a failed call: an error status on
+	// the wire and a non-OK code for the caller; and header metadata set by the handler under the name of the
+	// protocol's own status header does not get in the way of the real status
+	for ri, rend := range renderers {
+		svc := &Service{}
+		srv := httpgrpc.NewServer(rend.opt...)
+		srv.RegisterService(&ScriptedDesc, svc)
+		for vi, variant := range []string{"ok-coded-error", "shadowing-header"} {
+			for _, code := range []uint32{5, 13, 16} {
+				caseNo++
+				if !e.Selected("special", caseNo) {
+					continue
+				}
+				e.Begin("special", caseNo, fmt.Sprintf("%s %s %d", rend.name, variant, code))
+				sc := &Script{Kind: Unary, UnaryReq: &tpb.Message{Payload: []byte("c14s")}, Ret: Ret{How: "status", Code: code, Msg: "real"}}
+				wantCode := codes.Code(code)
+				if variant == "ok-coded-error" {
+					sc.Ret = Ret{How: "okcoded", Msg: "failed but claims OK"}
+					wantCode = codes.Internal
+				} else {
+					sc.Handler = []Op{{Op: "sethdr", MD: metadata.MD{"x-grpc-status": {"5:relayed from upstream"}, "x-grpc-details": {"AAAA"}}}}
+				}
+				run := svc.NewRun(sc, "http-direct")
+				rec := httptest.NewRecorder()
+				srv.ServeHTTP(rec, unaryHTTPRequest(context.Background(), "/", run, nil))
+				svc.Forget(run)
+				resp := rec.Result()
+				body, _ := io.ReadAll(resp.Body)
+				cell := fmt.Sprintf("special|%s|%s|%d", rend.name, variant, code)
+				e.Eval(cell, true)
+				_, _ = ri, vi
+				if rend.name == "default" && resp.StatusCode < 400 {
+					e.Violate("special/"+variant+"/non-error-http-status", fmt.Sprintf("%s: a failed call was rendered as HTTP %d", cell, resp.StatusCode), cell)
+				}
+				ch := &httpgrpc.Channel{BaseURL: mustURL("http://c14.test/"), Transport: rtFunc(func(r *http.Request) (*http.Response, error) {
+					return &http.Response{StatusCode: resp.StatusCode, Status: resp.Status, Header: resp.Header.Clone(), Body: io.NopCloser(bytes.NewReader(body)), Request: r, ProtoMajor: 1, ProtoMinor: 1}, nil
+				})}
+				cerr := ch.Invoke(context.Background(), Unary.Method(), sc.UnaryReq, new(tpb.Message))
+				if cerr == nil || status.Code(cerr) != wantCode {
+					e.Violate("special/"+variant+"/client-code", fmt.Sprintf("%s: the caller saw %v, want code %v", cell, cerr, wantCode), cell)
+				}
+			}
+		}
+	}
 	e.Sample(map[string]any{"matrix_cells": caseNo, "example": "renderer=default code=4 request-cancelled=false rpc-deadline-expired=true -> HTTP 504, client code 4"})
 
 	// synthetic replies without the gRPC status header
